@@ -492,4 +492,193 @@ example : DmInv { cmv29 := some { num_ext_blocks := 1, blocks := [{ level := 1, 
   intro w c h
   cases w <;> (injection h with h; subst h; exact ⟨rfl, by decide⟩)
 
+/-! ## the touched container is sorted (DM level), and the RPU-level operations -/
+
+/-- after a successful `add_metadata_block` the container the block belongs to is sorted -/
+theorem addBlock_touched_sorted (d d' : DmData) (b : Block) (w : Which) (c : Container)
+    (hw : whichContainer b.level = some w) (hc : d.get w = some c) (h : d.addBlock b = .ok d') :
+    ∃ c', d'.get w = some c' ∧ Sorted c'.blocks ∧ c'.blocks.Perm (c.blocks ++ [b]) := by
+  unfold DmData.addBlock at h
+  simp only [hw, hc] at h
+  cases ha : c.addBlock (allowedOf w) b with
+  | error => simp [ha, Res.bind] at h
+  | panic => simp [ha, Res.bind] at h
+  | ok c' =>
+    simp only [ha, Res.bind] at h
+    injection h with h
+    subst h
+    obtain ⟨hs, _, hp⟩ := addBlock_sorted _ c c' b ha
+    exact ⟨c', get_set_same d w c', hs, hp⟩
+
+/-- after `remove_metadata_level` the container of that level is sorted and holds no block of the level -/
+theorem removeLevel_touched_sorted (d : DmData) (level : Nat) (w : Which) (c : Container)
+    (hw : whichContainer level = some w) (hc : d.get w = some c) :
+    ∃ c', (d.removeLevel level).get w = some c' ∧ Sorted c'.blocks ∧ ∀ x ∈ c'.blocks, x ∈ c.blocks ∧ x.level ≠ level := by
+  unfold DmData.removeLevel
+  simp only [hw, hc]
+  exact ⟨_, get_set_same d w _, (removeLevel_sorted c level).1, removeLevel_spec c level⟩
+
+/-- after a successful keyed replacement (L2/L8/L10) the container is sorted and the replacement is an upsert -/
+theorem replaceBlock_keyed_touched (d d' : DmData) (b : Block) (w : Which) (c : Container)
+    (hl : b.level = 2 ∨ b.level = 8 ∨ b.level = 10) (hw : whichContainer b.level = some w) (hc : d.get w = some c)
+    (h : d.replaceBlock b = .ok d') :
+    d'.get w = some (c.replaceKeyed b) ∧ Sorted (c.replaceKeyed b).blocks ∧ b ∈ (c.replaceKeyed b).blocks ∧
+    (c.replaceKeyed b).blocks.countP (sameKey b) = max 1 (c.blocks.countP (sameKey b)) := by
+  unfold DmData.replaceBlock at h
+  have hk : (b.level == 2 || b.level == 8 || b.level == 10) = true := by
+    rcases hl with h' | h' | h' <;> simp [h']
+  simp only [hk, if_true, hw, hc] at h
+  injection h with h
+  subst h
+  obtain ⟨hs, _, hm, hcnt, _⟩ := replaceKeyed_upsert c b
+  exact ⟨get_set_same d w _, hs, hm, hcnt⟩
+
+/-- the invariant lifted to an RPU -/
+def RpuInv (r : Rpu) : Prop := ∀ d, r.vdr_dm_data = some d → DmInv d
+
+/-- the block-related operations of the RPU-level public surface -/
+inductive RpuOp where
+  | dm (op : BlockOp)                       -- any DM-level operation
+  | crop
+  | setOffsets (l r t b : Nat)
+  | removeCmv40
+  | copyLevels (src : Rpu) (levels : List Nat)
+
+def applyRpuOp (r : Rpu) : RpuOp → Res Rpu
+  | .dm op => match r.vdr_dm_data with
+      | some d => (applyOp d op).bind fun d' => .ok { r with vdr_dm_data := some d' }
+      | none => .ok r
+  | .crop => r.crop
+  | .setOffsets l rr t b => r.setActiveAreaOffsets l rr t b
+  | .removeCmv40 => .ok r.removeCmv40
+  | .copyLevels src lv => r.replaceLevelsFrom src lv
+
+def applyRpuOps : Rpu → List RpuOp → Res Rpu
+  | r, [] => .ok r
+  | r, op :: ops => (applyRpuOp r op).bind fun r' => applyRpuOps r' ops
+
+theorem applyOp_inv (d d' : DmData) (op : BlockOp) (hd : DmInv d) (h : applyOp d op = .ok d') : DmInv d' :=
+  ops_preserve_inv [op] d d' hd (by simp [applyOps, h, Res.bind])
+
+theorem replaceLevelsFrom_go_inv (sd : DmData) (lv : List Nat) :
+    ∀ (d d' : DmData), DmInv d → Rpu.replaceLevelsFrom.go sd d lv = .ok d' → DmInv d' := by
+  induction lv with
+  | nil => intro d d' hd h; simp only [Rpu.replaceLevelsFrom.go] at h; injection h with h; subst h; exact hd
+  | cons l ls ih =>
+    intro d d' hd h
+    simp only [Rpu.replaceLevelsFrom.go] at h
+    cases hb : d.replaceBlocks (sd.levelBlocks l) with
+    | error => simp [hb, Res.bind] at h
+    | panic => simp [hb, Res.bind] at h
+    | ok d1 =>
+      simp only [hb, Res.bind] at h
+      exact ih d1 d' (replaceBlocks_inv _ d d1 hd hb) h
+
+theorem applyRpuOp_inv (r r' : Rpu) (op : RpuOp) (hr : RpuInv r) (h : applyRpuOp r op = .ok r') : RpuInv r' := by
+  have hl5 : ∀ (rr : Rpu) (blk : Block), RpuInv rr →
+      (match rr.vdr_dm_data with
+       | none => Res.ok rr
+       | some d => (d.replaceBlock blk).bind fun d' => .ok { rr with vdr_dm_data := some d' }) = .ok r' → RpuInv r' := by
+    intro rr blk hrr hh
+    cases hd : rr.vdr_dm_data with
+    | none => rw [hd] at hh; injection hh with hh; subst hh; exact hrr
+    | some d =>
+      rw [hd] at hh
+      cases hb : d.replaceBlock blk with
+      | error => simp [hb, Res.bind] at hh
+      | panic => simp [hb, Res.bind] at hh
+      | ok d1 =>
+        simp only [hb, Res.bind] at hh
+        injection hh with hh
+        subst hh
+        intro d2 hd2
+        injection hd2 with hd2
+        subst hd2
+        exact replaceBlock_inv d d1 blk (hrr d hd) hb
+  cases op with
+  | dm op =>
+    simp only [applyRpuOp] at h
+    cases hd : r.vdr_dm_data with
+    | none => rw [hd] at h; injection h with h; subst h; exact hr
+    | some d =>
+      rw [hd] at h
+      cases ho : applyOp d op with
+      | error => simp [ho, Res.bind] at h
+      | panic => simp [ho, Res.bind] at h
+      | ok d1 =>
+        simp only [ho, Res.bind] at h
+        injection h with h
+        subst h
+        intro d2 hd2
+        injection hd2 with hd2
+        subst hd2
+        exact applyOp_inv d d1 op (hr d hd) ho
+  | crop =>
+    simp only [applyRpuOp, Rpu.crop] at h
+    exact hl5 { r with modified := true } _ (fun d hd => hr d hd) h
+  | setOffsets l rr t b =>
+    simp only [applyRpuOp, Rpu.setActiveAreaOffsets] at h
+    exact hl5 { r with modified := true } _ (fun d hd => hr d hd) h
+  | removeCmv40 =>
+    simp only [applyRpuOp] at h
+    injection h with h
+    subst h
+    unfold Rpu.removeCmv40
+    cases hd : r.vdr_dm_data with
+    | none => simpa [hd] using hr
+    | some d =>
+      simp only []
+      split
+      · intro d2 hd2
+        injection hd2 with hd2
+        subst hd2
+        intro w c hg
+        cases w with
+        | v29 => exact hr d hd .v29 c hg
+        | v40 => cases hg
+      · exact hr
+  | copyLevels src lv =>
+    simp only [applyRpuOp, Rpu.replaceLevelsFrom] at h
+    split at h
+    · cases h
+    · split at h
+      · rename_i d sd hd hsd
+        cases hg : Rpu.replaceLevelsFrom.go sd d lv with
+        | error => simp [hg, Res.bind] at h
+        | panic => simp [hg, Res.bind] at h
+        | ok d1 =>
+          simp only [hg, Res.bind] at h
+          injection h with h
+          subst h
+          intro d2 hd2
+          injection hd2 with hd2
+          subst hd2
+          exact replaceLevelsFrom_go_inv sd lv d d1 (hr d hd) hg
+      · injection h with h; subst h; exact hr
+
+/-- **C12 over the whole public surface**: after any sequence of block insert / replace / remove / replace-many,
+crop, set-offsets, remove-CM-v4.0 and copy-levels-from-another-RPU operations that succeeds, every block of the
+RPU still lives in the container of its level and each stored count equals the number of blocks -/
+theorem rpu_ops_preserve_inv (ops : List RpuOp) : ∀ (r r' : Rpu), RpuInv r → applyRpuOps r ops = .ok r' → RpuInv r' := by
+  induction ops with
+  | nil => intro r r' hr h; simp only [applyRpuOps] at h; injection h with h; subst h; exact hr
+  | cons op ops ih =>
+    intro r r' hr h
+    simp only [applyRpuOps] at h
+    cases ho : applyRpuOp r op with
+    | error => simp [ho, Res.bind] at h
+    | panic => simp [ho, Res.bind] at h
+    | ok r1 =>
+      simp only [ho, Res.bind] at h
+      exact ih r1 r' (applyRpuOp_inv r r1 op hr ho) h
+
+/-- non-vacuity: a sequence crop; add an L2 trim; remove CM v4.0; copy L6 from another RPU on a concrete RPU -/
+example :
+    let d : DmData := { cmv29 := some { num_ext_blocks := 1, blocks := [{ level := 1, length := 5, vals := [0, 1, 2] }] },
+                        cmv40 := some { num_ext_blocks := 1, blocks := [{ level := 254, length := 2, vals := [0, 2] }] } }
+    let r : Rpu := { vdr_dm_data := some d }
+    (applyRpuOps r [.crop, .dm (.add { level := 2, length := 11, vals := [2081, 0, 0, 0, 0, 0, 0] }), .removeCmv40,
+        .copyLevels { vdr_dm_data := some { cmv29 := some { num_ext_blocks := 1, blocks := [{ level := 6, length := 8, vals := [1000, 1, 0, 0] }] } } } [6]]).isOk = true := by
+  decide
+
 end Dovi.C12
